@@ -49,16 +49,15 @@ def build():
 
 
 def extract_cases(out, path):
-    """CASE lines of the TLC output -> ND-JSON file; returns the list of cases."""
+    """CASE lines of the TLC output -> ND-JSON file (sorted); returns the list of cases."""
     pre, post = '<<"CASE", "', '">>'
-    cases = []
+    lines = [json.loads('"' + l[len(pre):-len(post)] + '"') for l in out.splitlines()
+             if l.startswith(pre) and l.endswith(post)]
+    lines.sort()     # TLC's workers print in a nondeterministic order; the case numbering must not depend on it
     with open(path, "w") as f:
-        for l in out.splitlines():
-            if l.startswith(pre) and l.endswith(post):
-                s = json.loads('"' + l[len(pre):-len(post)] + '"')
-                cases.append(json.loads(s))
-                f.write(s + "\n")
-    return cases
+        for s in lines:
+            f.write(s + "\n")
+    return [json.loads(s) for s in lines]
 
 
 def run_replay(cases_path, answers_path):
